@@ -64,6 +64,10 @@ pub(crate) fn optimize(
             let plan_copy_before_step = plan.clone();
             #[cfg(feature = "verif_hooks")]
             crate::verif::update(|s| s.steps += 1);
+            #[cfg(feature = "verif_hooks")]
+            if crate::verif::over_budget() {
+                return None;
+            }
             let result = if let Some(result) = plan.step() {
                 result
             } else {
